@@ -171,7 +171,7 @@ class Base64Binary(AbstractBinary):
 
     @classmethod
     def encoder(cls, value: bytes) -> bytes:
-        return codecs.encode(value, 'base64').rstrip(b'\n')
+        return codecs.encode(value, 'base64').replace(b'\n', b'')  # a newline every 76 characters
 
     def decode(self) -> bytes:
         return codecs.decode(self.value, 'base64')
